@@ -672,11 +672,14 @@ fn builder(rep: &mut Report, model: &mut Model, ctx: &Ctx, rng: &mut Rng) {
         let mut secrets: Vec<[u8; 32]> = vec![];
         let lay = |l: u64| { let mut x = Layers::EMPTY; if l & 1 != 0 { x |= Layers::ENCRYPT; } if l & 2 != 0 { x |= Layers::COMPRESS; } x };
         let mut refused_impl: Vec<bool> = vec![];
+        // the layer set the calls ask for, by the documented meaning of the three layer calls (a level or a
+        // key list does not touch it): tracked here, not taken from the model
+        let mut want: u64 = if dflt { 3 } else { 0 };
         for _ in 0..rng.range(0, 8) {
             match rng.below(5) {
-                0 => { let l = rng.below(4); c.enable_layer(lay(l)); ops.push(json!({"op":"enable","l":l})); refused_impl.push(false); }
-                1 => { let l = rng.below(4); c.disable_layer(lay(l)); ops.push(json!({"op":"disable","l":l})); refused_impl.push(false); }
-                2 => { let l = rng.below(4); c.set_layers(lay(l)); ops.push(json!({"op":"set","l":l})); refused_impl.push(false); }
+                0 => { let l = rng.below(4); c.enable_layer(lay(l)); want |= l; ops.push(json!({"op":"enable","l":l})); refused_impl.push(false); }
+                1 => { let l = rng.below(4); c.disable_layer(lay(l)); want &= !l; ops.push(json!({"op":"disable","l":l})); refused_impl.push(false); }
+                2 => { let l = rng.below(4); c.set_layers(lay(l)); want = l; ops.push(json!({"op":"set","l":l})); refused_impl.push(false); }
                 3 => { let nlev = *rng.pick(&[0u32, 1, 5, 11, 12, 99]); let r = c.with_compression_level(nlev).is_err(); ops.push(json!({"op":"level","n":nlev})); refused_impl.push(r); }
                 _ => {
                     let k = rng.below(3) as usize;
@@ -700,6 +703,12 @@ fn builder(rep: &mut Report, model: &mut Model, ctx: &Ctx, rng: &mut Rng) {
             if rep.full() { return; } continue;
         }
         let li = (c.is_layers_enabled(Layers::ENCRYPT) as u64) | ((c.is_layers_enabled(Layers::COMPRESS) as u64) << 1);
+        // oracle (C07): encryption asked for by the calls is still asked for after them (an archive written in
+        // clear although ENCRYPT was enabled is the worst confidentiality failure)
+        if want & 1 != 0 && li & 1 == 0 {
+            rep.violation("oracle", "C07/plaintext", json!({"check":"builder-drops-encryption"}), "the builder calls enable encryption, yet the configuration they produce has the encryption layer off: the archive would be written in clear", case.clone());
+            if rep.full() { return; } continue;
+        }
         let refused_model: Vec<bool> = m["refused"].as_array().map(|a| a.iter().map(|x| x == true).collect()).unwrap_or_default();
         if m["layers"].as_u64() != Some(li) || refused_model != refused_impl {
             rep.violation("corr", "corr:C07/builder", json!({}), &format!("layer set / refusals after the builder calls: implementation {li} {:?}, model {} {:?}", refused_impl, m["layers"], refused_model), case.clone());
